@@ -127,8 +127,8 @@ func modeC03(e *Env) {
 			// file switches directly followed by every kind of transaction: one opened by BEGIN, an autocommitted DDL, rows
 			// without BEGIN, a statement
 			g2 := gp
-			l = logFromAbstractBases(e.R, cfgs[i%len(cfgs)], g2, []interface{}{"txxid", "rotate", "ddl", "txxid", "rotate", "autorow", "stmtdml",
-				"rotate", "txcommit", "rotate", "stmtdml", "txrollback"}, baseSets[i%len(baseSets)])
+			l = logFromAbstractBases(e.R, cfgs[i%len(cfgs)], g2, []interface{}{"txxid", "rotate", "ddl", "txxid", "restart", "autorow", "stmtdml",
+				"rotate", "txcommit", "restart", "stmtdml", "txrollback"}, baseSets[i%len(baseSets)])
 		}
 		bs := l.Boundaries()
 		start := bs[0]
@@ -162,8 +162,13 @@ func logFromAbstractBases(r *rand.Rand, cfg WireCfg, gp GenParams, units []inter
 	for _, ui := range units {
 		k := ui.(string)
 		switch k {
-		case "rotate":
-			f.Units = append(f.Units, genUnit(r, k, tables, gp, &ts, cfg.Gtid))
+		case "rotate", "restart":
+			u := genUnit(r, "rotate", tables, gp, &ts, cfg.Gtid)
+			if k == "restart" {
+				// the master was restarted: STOP event, and only the artificial ROTATE announces the next file
+				u.Evs = []*Ev{{K: "unknown", TS: ts, Code: 3}}
+			}
+			f.Units = append(f.Units, u)
 			f = &LogFile{Name: logFileName(scheme, len(l.Files))}
 			if len(bases) > len(l.Files) {
 				f.Base = bases[len(l.Files)]
@@ -494,7 +499,7 @@ func modeC04(e *Env) {
 			// a large offset and cross into a file whose offsets start again at 4
 			g2 := gp
 			g2.SimpleCols = true
-			l = logFromAbstract(e.R, cfg, g2, []interface{}{"txxid", "txxid", "txcommit", "autorow", "rotate", "txxid", "ddl", "txxid"})
+			l = logFromAbstract(e.R, cfg, g2, []interface{}{"txxid", "txxid", "txcommit", "autorow", "rotate", "txxid", "ddl", "restart", "txxid", "autorow"})
 		}
 		if li%3 == 1 {
 			// an empty file name is a valid position too (the master takes it as its first binlog): the library keeps
